@@ -239,6 +239,25 @@ pub fn cases(seed: u64, thorough: bool, faults: &[Value]) -> Vec<LCase> {
                 }
             }
         }
+        // text art seeds as UTF-8 files: byte order mark, the seed's own bytes (7-bit; high bytes replaced) and ONE character beyond
+        // U+00FF inserted at / replacing every position of the first 96 bytes - so that it arrives in every state the seed drives
+        // the format's parser into (after an escape, a command lead-in, inside a parameter), where code written for 8-bit input
+        // indexes tables by the character or narrows it
+        if matches!(s.ext.as_str(), "ans" | "pcb" | "avt" | "asc" | "msg" | "an1" | "seq" | "ata") {
+            let ascii: Vec<u8> = s.bytes.iter().map(|&b| if b < 0x80 { b } else { b'?' }).collect();
+            for (wi, wide) in ["\u{0101}", "\u{1F600}"].iter().enumerate() {
+                for i in 0..=n.min(96) {
+                    for replace in [false, true] {
+                        if replace && (i >= n || wi == 1) { continue; }
+                        let mut b = vec![0xEF, 0xBB, 0xBF];
+                        b.extend(&ascii[..i]);
+                        b.extend(wide.as_bytes());
+                        b.extend(&ascii[(if replace { i + 1 } else { i })..]);
+                        out.push(LCase { ext: s.ext.clone(), seed: s.name.clone(), mutation: format!("bom-wide{wi}:{}@{i}", if replace { "repl" } else { "ins" }), bytes: b });
+                    }
+                }
+            }
+        }
         // header bytes: every byte of the first 48 set to extremes; 16/32-bit extremes at every even offset
         for off in 0..n.min(48) {
             for val in [0u8, 1, 0x7F, 0x80, 0xFF] {
